@@ -295,3 +295,15 @@ pub proof fn lemma_fclose_full(x: int, m: int, w: int, nbits: int)
         assert(2 * a * pn < t * pw) by (nonlinear_arith) requires 2 * a <= pw, pn < t, pw >= 1, pn >= 1, a >= 0;
     }
 }
+// ---- the digit buffer as Buffer::finish / round_and_trim see it ----
+// the digit string of the buffer region s = data[0 .. len) without the radix point at index 1 + id: 1 + id leading digits (spare slot first), then fd fraction digits
+pub open spec fn strip(s: Seq<u8>, id: int, fd: int) -> Seq<u8> { Seq::new((1 + id + fd) as nat, |i: int| if i <= id { s[i] } else { s[i + 1] }) }
+// all digits of the buffer (spare leading slot, integer digits, fraction digits) as one number scaled by r^frac_digits
+pub open spec fn bdigits(b: Buffer) -> Seq<u8> { strip(b.data@, b.int_digits as int, b.frac_digits as int) }
+pub open spec fn rbits(r: Radix) -> u32 { match r { Radix::Bin => 1, Radix::Oct => 3, Radix::LowHex => 4, Radix::UpHex => 4, Radix::Dec => 4 } }
+pub open spec fn rmax(r: Radix) -> u8 { match r { Radix::Bin => 1, Radix::Oct => 7, Radix::LowHex => 15, Radix::UpHex => 15, Radix::Dec => 9 } }
+pub open spec fn enc_digit(d: u8, upper: bool) -> u8 { if d < 10 { (d + 48) as u8 } else if d < 16 { (if upper { d + 55 } else { d + 87 }) as u8 } else { d } }
+// what Buffer::finish expects of the buffer: digits below the radix everywhere, the spare leading slot still zero, the radix point in place
+pub open spec fn finish_req(b: Buffer, max: u8) -> bool {
+    buf_ok(b) && 1 <= max <= 15 && rdigits(bdigits(b), max as int + 1) && b.data@[0] == 0 && b.data@[1 + b.int_digits as int] == 46
+}
